@@ -17,7 +17,7 @@ one_prop() {
     git -C /repo worktree remove --force $wt
   done
 }
-for group in "C01 C13 C16" "C02 C14 C17" "C03 C10 C18" "C04 C09 C15" "C05 C11 C12" "C07 C08"; do
+for group in "C01 C13 C16 C10" "C02 C14 C17 C09" "C03 C18 C15 C11" "C04 C12 C08" "C05 C07"; do
   for p in $group; do one_prop $p & done
   wait
 done
